@@ -118,7 +118,7 @@ func c15Run(r *zsim.Run) {
 		for i := 0; i < 1000; i++ {
 			r.Quiesce()
 			if inListener == 0 {
-				zsim.Sleep(2 * time.Millisecond) // longer than a slow listener takes: the next one, if any, has started
+				zsim.Sleep(4 * time.Millisecond) // longer than a slow listener takes: the next one, if any, has started
 				r.Quiesce()
 				if inListener == 0 {
 					return
@@ -153,15 +153,17 @@ func c15Run(r *zsim.Run) {
 			zsim.Sleep(time.Second)
 		}
 		cs := &c15Sub{s: s, prefix: prefix, exclusive: ex}
-		slow := o.Intn(3) == 0
+		slow := o.Intn(2) == 0
+		slowFor := time.Duration(zsim.Pick(o, 1, 3)) * time.Millisecond
 		s.AddListener(func() {
 			// a consumer (a load balancer) re-reads the list whenever it is told of a change
 			cs.changes++
 			inListener++
-			if slow {
-				zsim.Sleep(time.Millisecond)
-			}
+			// it reads the list and then works on it for a while: whatever changes meanwhile must be announced again
 			cs.lastSeen = append([]string(nil), s.Values()...)
+			if slow {
+				zsim.Sleep(slowFor)
+			}
 			inListener--
 		})
 		subs = append(subs, cs)
